@@ -65,10 +65,10 @@ AXIS_INVS = ["Linear", "ConstantPreserved", "AlongAxisOnly", "UnitKernelIdentity
 BOLTZMANN_EV = 8.617333262e-5
 
 
-def scfg(wrong=(), shapes="ShapesA", ranks=(0, 1), kernels="KernelsA", maxadds=1, maxsets=1):
+def scfg(wrong=(), shapes="ShapesA", ranks=(0, 1), kernels="KernelsA", maxadds=1, maxsets=1, maxmut=2):
     return ("SPECIFICATION Spec17\nCONSTANTS\n" + "  Wrong = {" + ", ".join(f'"{w}"' for w in wrong) + "}\n" + BASE +
             f"  Shapes <- {shapes}\n  Ranks = {{{', '.join(map(str, ranks))}}}\n  Kernels <- {kernels}\n  MaxAdds = {maxadds}\n"
-            f"  MaxSets = {maxsets}\n" + "".join(f"INVARIANT {i}\n" for i in SMOOTH_INVS) + "CHECK_DEADLOCK FALSE\n")
+            f"  MaxSets = {maxsets}\n  MaxMut = {maxmut}\n" + "".join(f"INVARIANT {i}\n" for i in SMOOTH_INVS) + "CHECK_DEADLOCK FALSE\n")
 
 
 def acfg(shapes="FullShapesA", kernels="KernelsA"):
@@ -282,7 +282,8 @@ def _check(rep, found, runs, tier):
     found.flush(rep)
 
     # ---------------- dataSmooth: loop, cache, add(), set_smoother()
-    cfg = scfg(shapes="ShapesB", ranks=(0, 1), kernels="KernelsQ") if thorough else scfg(shapes="ShapesQ", kernels="KernelsQ")
+    # quick: one add() or one set_smoother() per behaviour; thorough: both, in either order
+    cfg = scfg(shapes="ShapesA", ranks=(0, 1), kernels="KernelsQ", maxmut=2) if thorough else scfg(shapes="ShapesQ", kernels="KernelsQ", maxmut=1)
     st = ftable.enumerate_states("MC_ResultAlgSmooth.tla", cfg, runs.name("c17_smooth"), workers=workers, timeout=TLC_TIMEOUT)
     ftable.spec_violation(rep, st, "c17_smooth")
     tlc.check_not_vacuous(st, ["ReadCached", "ReadStart", "LoopStep", "LoopEnd", "AddInPlaceData", "SetSmoother"], "c17_smooth")
@@ -346,7 +347,8 @@ def _check(rep, found, runs, tier):
                 found.add("EnergyResult.dataSmooth:stale_after_" + ("add" if log[last_mut] == "add" else "set_smoother"), det)
             else:
                 found.add("EnergyResult.dataSmooth:" + classify_smooth(np.asarray(got) / factor, shape, rank, s["data"], smo_now), det)
-    need = ("two_axes", "one_axis", "void", "two_axes+add_after_read", "one_axis+add", "two_axes+set_after_read", "one_axis+set", "void+set_after_read")
+    need = ("two_axes", "one_axis", "void", "two_axes+add_after_read", "one_axis+add", "two_axes+set_after_read", "one_axis+set", "void+set_after_read") + \
+           (("two_axes+add_after_read+set_after_read", "one_axis+add+set") if thorough else ())
     for n_ in need:
         if not classes.get(n_):
             raise MachineryError(f"c17_smooth: no replayed case of class {n_}: {classes}")
@@ -357,7 +359,7 @@ def _check(rep, found, runs, tier):
 
     # ---------------- sensitivity: the plausible wrong implementations must be rejected by TLC
     def one(wrong):
-        return wrong, tlc.run_tlc("MC_ResultAlgSmooth.tla", scfg(wrong=(wrong,), shapes="ShapesW", ranks=(0,), kernels="KernelsQ"),
+        return wrong, tlc.run_tlc("MC_ResultAlgSmooth.tla", scfg(wrong=(wrong,), shapes="ShapesW", ranks=(0,), kernels="KernelsQ", maxmut=1),
                                   runs.name(f"c17_wrong_{wrong}"), workers=1, timeout=TLC_TIMEOUT, coverage=False)
     with ThreadPoolExecutor(max_workers=3) as ex:
         res = list(ex.map(one, ("selfdata", "stalecache", "stalesmoother")))
